@@ -247,6 +247,7 @@ func sKind(w int) types.BasicKind {
 
 // toKind reinterprets/extends integer v as kind k (from its own kind).
 func toKind(v value, k types.BasicKind) value {
+	v = forceLazy(v)
 	if s, ok := v.(sv); ok {
 		return symConvInt(s, k)
 	}
@@ -656,7 +657,11 @@ func init() {
 		}
 		if _, ok := fr.i.summaries["cgo:crc32_write"]; ok {
 			p := cPtrArg(args[1])
-			return crcFoldSummary(fr, toKind(args[0], types.Uint32), p.mem, int(asInt64(args[2])))
+			st := args[0]
+			if _, lazy := st.(lazyFold); !lazy {
+				st = toKind(st, types.Uint32)
+			}
+			return crcFoldSummary(fr, st, p.mem, int(asInt64(args[2])))
 		}
 		return ck.call(fr, "crc32_write", []value{toKind(args[0], types.Uint32), cPtrArg(args[1]), toKind(args[2], types.Uint32)})
 	})
